@@ -68,6 +68,11 @@ CLAIMED["C01"] = dict(text="Bounded symbolic model checking of the real parsers 
                   "groups, charges and masses are symbolic terms, so one path covers every offset and every numeric attribute value.",
              design="DESIGN.md 4/C01", technique="symbolic execution of the real Python code with z3 (symx): symbolic integers/reals for offsets and attributes, selectors for structure",
              note="blocks of <= 3 atoms (+ one two-residue block), residue graphs of <= 3 (quick) / 4-5 (thorough) residues; .rtp input, parameter rendering and -mods spec parsing are outside. " + NOTE_COMMON)
+CLAIMED["C14"] = dict(text="Bounded symbolic model checking of the real tag_exclusions / MapToMolecule / ApplyLinks(expand_excl, neighborhood): residue graph, residue names, "
+                  "per-block exclusion distance (0..4), block sizes, explicit block and link exclusions are solver-chosen; a breadth-first recount of bond-graph "
+                  "distances is the oracle, compared as sets in both directions.",
+             design="DESIGN.md 4/C14", technique="symbolic execution of the real Python code with z3 (symx); selector-only (exclusion distances are hashed by the code), exhaustive within the bound",
+             note="chains/cycles/stars of <= 3 (quick) / 4 (thorough) residues, blocks of <= 3 atoms, bonds from next-residue links. " + NOTE_COMMON)
 NOT_YET = {}
 def main():
     props = [json.loads(l) for l in open(os.path.join(ROOT, "properties.jsonl"))]
